@@ -74,7 +74,7 @@ def _main_check(ctx: Ctx) -> None:
     ctx.assumptions += ["RelativeSequence.split is pure and returns fresh pieces (C08, C16)", "signature changes lie on bar boundaries (hypothesis of the property)"]
     # bar splitting is built on RelativeSequence.split: its boundary handling decides whether the bars reproduce the music
     from .c08 import split_rules
-    split_rules(ctx, {"KEY", "CUT", "RESTRIKE", "PLACE", "DEST", "PIECE", "FLOW"})
+    split_rules(ctx, {"KEY", "CUT", "RESTRIKE", "PLACE", "DEST", "PIECE", "FLOW", "TAIL"})
     # ... and every bar is made by Bar.__init__: capacity test, padding and the single leading signature (rules of C10)
     from .c10 import bar_rules
     bar_rules(ctx)
@@ -345,6 +345,8 @@ def _main_check(ctx: Ctx) -> None:
             neg = False
             while isinstance(t, ast.UnaryOp) and isinstance(t.op, ast.Not):
                 neg, t = not neg, t.operand
+            if isinstance(t, ast.Name) and t.id == sv:            # truthiness of the list: non-empty
+                return {0} if neg else {1, 2}
             if not (isinstance(t, ast.Compare) and len(t.ops) == 1 and isinstance(t.left, ast.Call) and isinstance(t.left.func, ast.Name)
                     and t.left.func.id == "len" and t.left.args and src(t.left.args[0]) == sv and isinstance(t.comparators[0], ast.Constant)):
                 return None
